@@ -152,7 +152,73 @@ pub fn small_section(mut idx: u64) -> Vec<u8> {
     out
 }
 
-const TLV_LENS: [usize; 12] = [0, 0, 1, 1, 2, 3, 7, 255, 256, 257, 1000, 4096];
+const TLV_LENS: [usize; 18] = [0, 0, 1, 1, 2, 3, 4, 4, 5, 7, 8, 16, 32, 255, 256, 257, 1000, 4096];
+
+/// Fills a TLV value: random bytes, all zero, all ones, or printable text.
+fn fill_value(rng: &mut Rng, v: &mut [u8]) {
+    match rng.below(8) {
+        0 => v.iter_mut().for_each(|b| *b = 0),
+        1 => v.iter_mut().for_each(|b| *b = 0xFF),
+        2 => v.iter_mut().for_each(|b| *b = b'a' + (rng.next() % 26) as u8),
+        _ => rng.fill(v),
+    }
+}
+
+/// HAProxy-style PP2_TYPE_SSL TLV: client byte, 4 verify bytes, then well-formed sub-TLVs.
+fn ssl_tlv(rng: &mut Rng, room: usize) -> Vec<u8> {
+    let mut value = vec![rng.u8() & 7, 0, 0, 0, rng.u8() & 1];
+    for sub in [0x21u8, 0x22, 0x23, 0x24, 0x25] {
+        if rng.coin() {
+            let l = rng.below(12) as usize;
+            if value.len() + 3 + l + 3 > room {
+                break;
+            }
+            value.push(sub);
+            value.extend_from_slice(&(l as u16).to_be_bytes());
+            for _ in 0..l {
+                value.push(b'A' + (rng.next() % 26) as u8);
+            }
+        }
+    }
+    let mut out = vec![0x20];
+    out.extend_from_slice(&(value.len() as u16).to_be_bytes());
+    out.extend_from_slice(&value);
+    out
+}
+
+/// Thousands of tiny TLVs: counts around the powers of two and the maximum that fits.
+pub fn tiny_flood(rng: &mut Rng, budget: usize) -> Vec<u8> {
+    let max = budget / 3;
+    let target = if crate::engine::small() {
+        rng.range(5, 60) as usize
+    } else {
+        match rng.below(9) {
+            0 => 1023 + rng.below(3) as usize,
+            1 => 4095 + rng.below(3) as usize,
+            2 => 16383 + rng.below(3) as usize,
+            3 => max,
+            4 => max.saturating_sub(1),
+            5 => 255 + rng.below(3) as usize,
+            6 => 65 + rng.below(2000) as usize,
+            7 => 2047 + rng.below(3) as usize,
+            _ => 8191 + rng.below(3) as usize,
+        }
+    }
+    .min(max);
+    let mut out = Vec::with_capacity(target * 3 + 8);
+    let kind = rng.u8();
+    let vary = rng.coin();
+    for i in 0..target {
+        let one = vary && i % 7 == 3 && out.len() + 4 + (target - i - 1) * 3 <= budget;
+        out.push(if rng.chance(1, 8) { rng.u8() } else { kind });
+        out.push(0);
+        out.push(one as u8);
+        if one {
+            out.push(i as u8);
+        }
+    }
+    out
+}
 
 /// A well-formed TLV section of at most `budget` bytes (possibly empty).
 pub fn wellformed_section(rng: &mut Rng, budget: usize) -> Vec<u8> {
@@ -169,17 +235,28 @@ pub fn wellformed_section(rng: &mut Rng, budget: usize) -> Vec<u8> {
         }
         let l = l.min(room - 3).min(65535);
         let kind = if rng.coin() { rng.u8() } else { *rng.pick(&[0x01u8, 0x02, 0x03, 0x04, 0x05, 0x20, 0x21, 0x22, 0x23, 0x24, 0x25, 0x30]) };
+        if kind == 0x20 && room >= 16 && rng.coin() {
+            out.extend_from_slice(&ssl_tlv(rng, room.min(120)));
+            continue;
+        }
         out.push(kind);
         out.extend_from_slice(&(l as u16).to_be_bytes());
         let start = out.len();
         out.resize(start + l, 0);
-        rng.fill(&mut out[start..]);
+        fill_value(rng, &mut out[start..]);
+        if l >= 12 && rng.chance(1, 12) {
+            // a value that itself starts with the v2 signature (a nested / forwarded header)
+            out[start..start + 12].copy_from_slice(&SIG);
+        }
     }
     out
 }
 
 /// A TLV section of one of several kinds; returns (bytes, kind name).
 pub fn any_section(rng: &mut Rng, budget: usize) -> (Vec<u8>, &'static str) {
+    if budget >= 3000 && rng.chance(1, 3) {
+        return (tiny_flood(rng, budget), "wellformed");
+    }
     match rng.below(8) {
         0 => (Vec::new(), "empty"),
         1..=3 => (wellformed_section(rng, budget), "wellformed"),
@@ -234,6 +311,11 @@ pub fn valid_ctl(i: u64) -> (u8, u8) {
 /// block is short enough, so that a swapped or reversed field cannot go unnoticed).
 pub fn address_block(rng: &mut Rng, fam: u8) -> Vec<u8> {
     let n = fam_size(fam).unwrap_or(0);
+    if fam != 0 && rng.chance(1, 3) {
+        // a block encoded from address *values* (special IPv4/IPv6 classes, equal endpoints,
+        // Unix paths from a dictionary of realistic spellings)
+        return crate::build::Addr::random(rng, fam).encode();
+    }
     let mut v = vec![0u8; n];
     match rng.below(8) {
         0 => {}
@@ -277,8 +359,8 @@ pub fn valid_header_with(rng: &mut Rng, buf: &mut Vec<u8>, vc: u8, fp: u8) -> V2
     buf.extend_from_slice(&address_block(rng, fam));
     // budget for the rest of the payload
     let budget = match rng.below(20) {
-        0 | 1 if crate::engine::small() && rng.chance(3, 4) => rng.below(600) as usize,
-        0 => 65535 - size,
+        0 | 1 | 3 if crate::engine::small() && rng.chance(3, 4) => rng.below(600) as usize,
+        0 | 3 => 65535 - size,
         1 => rng.below((65535 - size) as u64 + 1) as usize,
         2 => 0,
         _ => rng.below(300) as usize,
@@ -341,9 +423,45 @@ pub fn ctl_case(idx: u64, rng: &mut Rng, buf: &mut Vec<u8>) {
     buf.truncate(present);
 }
 
+/// Dense ladder for the 24 valid control pairs: every declared length 0..=1100 and the top 52
+/// values, x the 8 presence relations.
+pub const DENSE_LENS: u64 = 1101 + 52;
+pub fn dense_count() -> u64 {
+    24 * DENSE_LENS * CTL_PRESENT
+}
+pub fn dense_case(idx: u64, rng: &mut Rng, buf: &mut Vec<u8>) {
+    let (vc, fp) = valid_ctl(idx % 24);
+    let r = idx / 24;
+    let li = r % DENSE_LENS;
+    let len = if li <= 1100 { li } else { 65535 - (li - 1101) } as usize;
+    let p = r / DENSE_LENS;
+    let full = 16 + len;
+    let present = match p {
+        0 => full,
+        1 => full - 1,
+        2 => full + 5,
+        3 => 16,
+        4 => 16 + fam_size(fp >> 4).unwrap_or(0).min(len),
+        5 => 16 + len / 2,
+        6 => 17.min(full),
+        _ => full + 1,
+    };
+    buf.clear();
+    buf.resize(present.max(16), 0);
+    let head = buf.len().min(300);
+    rng.fill(&mut buf[..head]);
+    buf[..12].copy_from_slice(&SIG);
+    buf[12] = vc;
+    buf[13] = fp;
+    buf[14] = (len >> 8) as u8;
+    buf[15] = len as u8;
+    buf.truncate(present);
+}
+
 pub fn v2_streams(tier: Tier, unit: u64) -> Vec<StreamSpec> {
     let u = unit;
     vec![
+        if tier == Tier::Miri { stream("v2-dense-s", 100) } else { exhaustive("v2-dense", dense_count()) },
         if tier == Tier::Miri { stream("v2-ctl-s", 300) } else { exhaustive("v2-ctl", ctl_count()) },
         stream("v2-valid", tier.n(100, 20 * u, 2000 * u)),
         exhaustive("v2-sig", if tier == Tier::Miri { 200 } else { 12 * 255 * 24 + 13 * 256 }),
@@ -358,6 +476,11 @@ pub fn v2_case(stream_name: &str, idx: u64, seed: u64, buf: &mut Vec<u8>) {
     let mut rng = Rng::for_case(seed, stream_id(stream_name), idx);
     let rng = &mut rng;
     match stream_name {
+        "v2-dense" => dense_case(idx, rng, buf),
+        "v2-dense-s" => {
+            let i = rng.below(dense_count());
+            dense_case(i, rng, buf)
+        }
         "v2-ctl" => ctl_case(idx, rng, buf),
         "v2-ctl-s" => {
             let i = rng.below(ctl_count());
@@ -471,6 +594,7 @@ pub fn tlv_streams(tier: Tier, unit: u64) -> Vec<StreamSpec> {
         stream("tlv-wf", tier.n(100, 20 * u, 3000 * u)),
         stream("tlv-sized", tier.n(20, 1 * u, 50 * u)),
         stream("tlv-rand", tier.n(100, 10 * u, 1500 * u)),
+        stream("tlv-flood", tier.n(10, u / 50, 20 * u)),
     ]
 }
 
@@ -488,6 +612,17 @@ pub fn tlv_case(stream_name: &str, idx: u64, seed: u64) -> Vec<u8> {
                 // every truncation point is reachable: cut chosen uniformly
                 let cut = rng.below(s.len() as u64 + 1) as usize;
                 s.truncate(cut);
+            }
+            s
+        }
+        "tlv-flood" => {
+            let mut s = tiny_flood(rng, 65535);
+            match rng.below(4) {
+                0 => {
+                    s.pop();
+                }
+                1 => s.extend_from_slice(&[rng.u8(), 0]),
+                _ => {}
             }
             s
         }
